@@ -201,9 +201,9 @@ class SymMap:
         v = XR(self.f(k), npk=True)
         c = ctx()
         if self.lo is not None:
-            c.assume(xcmp(">=", v, self.lo))
+            c.assume(xcmp(">=", v, self.lo), definitional=True)
         if self.hi is not None:
-            c.assume(xcmp("<=", v, self.hi))
+            c.assume(xcmp("<=", v, self.hi), definitional=True)
         return v
 
     def py_contains(self, I, item):
